@@ -101,6 +101,14 @@ fn run(ctx: &RunCtx) -> Report {
         }
         report.probe("contacts_at_the_unspecified_address", 1);
     }
+    // 1 run in 8 (own random stream): *generous* peers - every lookup answer of every peer lists 60..75 further
+    // well-formed nodes (random ids, random routable addresses where nobody lives), so that one lookup
+    // collects hundreds of candidates
+    let mut frng = Rng::new(crate::rng::key(ctx.seed, &[crate::rng::tag("c05-node-flood")]));
+    let node_flood = frng.chance(1, 8);
+    if node_flood {
+        report.probe("node_flood_runs", 1);
+    }
     // Byzantine repliers: mutate the honest reply, or answer with something else entirely
     let byz: Vec<usize> = (0..n_byz).filter(|i| ctx.enabled(el_byz(*i))).collect();
     {
@@ -108,6 +116,32 @@ fn run(ctx: &RunCtx) -> Report {
         let mut hr = Rng::new(ctx.seed ^ 0xc05);
         rawnet.set_hook(Box::new(move |rctx, sh, idx, from, msg: &Krpc| {
             if !byz.contains(&idx) {
+                if node_flood && matches!(msg.query_name(), Some("find_node") | Some("get") | Some("get_peers") | Some("get_signed_peers")) {
+                    if let Some((delay, bytes)) = default_reply(sh, idx, rctx.now, from, msg) {
+                        if let Ok(mut parsed) = bencode::parse(&bytes) {
+                            if let Some(r) = parsed.value.get_mut("r") {
+                                let n = hr.usize(60, 75);
+                                let mut list: Vec<(krpc::Id, SocketAddrV4)> = vec![];
+                                for _ in 0..n {
+                                    let ip = std::net::Ipv4Addr::new(hr.range(11, 223) as u8, hr.below(256) as u8, hr.below(256) as u8, hr.range(1, 254) as u8);
+                                    list.push((hr.id(), SocketAddrV4::new(ip, hr.range(1024, 65000) as u16)));
+                                }
+                                // far and near ids alike: some sort behind everything the lookup holds
+                                if let Some(t) = msg.target() {
+                                    let mut far = t;
+                                    for b in far.iter_mut() {
+                                        *b = !*b;
+                                    }
+                                    list[0].0 = far;
+                                }
+                                r.set("nodes", Value::Bytes(krpc::compact_nodes(&list)));
+                                let me = rctx.me;
+                                rctx.send_after(delay, me, from, parsed.value.encode());
+                                return HookResult::Handled;
+                            }
+                        }
+                    }
+                }
                 if echo_target_ids {
                     if let (Some(t), Some((delay, bytes))) = (msg.target(), default_reply(sh, idx, rctx.now, from, msg)) {
                         if let Ok(mut parsed) = bencode::parse(&bytes) {
@@ -141,7 +175,26 @@ fn run(ctx: &RunCtx) -> Report {
             } else if roll < 7 {
                 // a different kind of reply with the right tid
                 let id = sh.peers[idx].id;
-                let r = match hr.below(5) {
+                let r = match hr.below(10) {
+                    // well-formed replies of ANOTHER kind than the request asked for (accepted by the codec)
+                    5 => Value::dict(vec![("id", Value::bytes(&id)), ("token", Value::str("t")), ("values", Value::List(vec![Value::Bytes(vec![10, 1, 2, 3, 0x1a, 0xe1])]))]),
+                    6 => Value::dict(vec![("id", Value::bytes(&id)), ("token", Value::str("t")), ("nodes", Value::Bytes(krpc::compact_nodes(&[(hr.id(), SocketAddrV4::new(priv_ip(7700), 6881))]))), ("v", Value::str("some immutable value"))]),
+                    7 => {
+                        let k = krpc::signing_key([hr.below(256) as u8; 32]);
+                        let item = krpc::Item::signed(&k, None, hr.range(0, 9) as i64, b"wrong-kind item");
+                        Value::dict(vec![("id", Value::bytes(&id)), ("token", Value::str("t")), ("seq", Value::Int(item.seq)), ("v", Value::bytes(&item.v)), ("k", Value::bytes(&item.k)), ("sig", Value::bytes(&item.sig))])
+                    }
+                    8 => {
+                        let k = krpc::signing_key([hr.below(256) as u8; 32]);
+                        let t = 1_767_225_600_000_000u64;
+                        let target = msg.target().unwrap_or([0; 20]);
+                        let sig = krpc::sign(&k, &krpc::signed_announce_signable(&target, t));
+                        let mut b = k.verifying_key().to_bytes().to_vec();
+                        b.extend_from_slice(&t.to_be_bytes());
+                        b.extend_from_slice(&sig);
+                        Value::dict(vec![("id", Value::bytes(&id)), ("token", Value::str("t")), ("peers", Value::List(vec![Value::Bytes(b)]))])
+                    }
+                    9 => Value::dict(vec![("id", Value::bytes(&id)), ("nodes", Value::Bytes(krpc::compact_nodes(&[(hr.id(), SocketAddrV4::new(priv_ip(7701), 6881)), (hr.id(), SocketAddrV4::new(priv_ip(7702), 6881))])))]),
                     0 => Value::dict(vec![("id", Value::bytes(&id))]),
                     1 => Value::dict(vec![("id", Value::bytes(&id)), ("nodes", Value::Bytes(vec![1; 27]))]),
                     2 => Value::dict(vec![("id", Value::bytes(&id)), ("token", Value::str("t")), ("values", Value::List(vec![Value::Bytes(vec![1; 5])]))]),
